@@ -362,6 +362,7 @@ fn op_build(case: &Value) -> Value {
     let mut buf = vec![0u8; js.len() * 2 + 64];
     let own = zlink_core::verif::to_slice(&desc, &mut buf).map(|n| buf[..n].to_vec());
     out["desc_ser_same"] = json!(own.as_ref().map(|b| b.as_slice() == js.as_bytes()).unwrap_or(false));
+    out["desc_json"] = json!(hex(js.as_bytes()));
     out["desc"] = match serde_json::from_str::<InterfaceDescription<'static>>(&js) {
         Ok(d) => {
             let raw_same = d.as_raw() == Some(d_owned.as_str());
